@@ -406,6 +406,10 @@ def probes(rep, r, n):
                 _, bgs, rmss_, _, _ = build(img * 4.0)
                 _, bgc, rmsc, _, _ = build(img + 16.0)
                 _, bgk, rmsk, _, _ = build(img * 3.7)
+                # extreme but legitimate units: tiny flux scale (2^-30), large scale (2^20), large pedestal (2^17)
+                _, bgt, rmst, _, _ = build(img * 2.0 ** -30)
+                _, bgl, rmsl, _, _ = build(img * 2.0 ** 20)
+                _, bgp, rmsp, _, _ = build(img + 2.0 ** 17)
             except Exception as e:                              # noqa: BLE001
                 rep.violation(f'equivariance-raises:{type(e).__name__}:{tag}', f'shifted / scaled data made the call raise {e!r}', rp)
                 continue
@@ -419,6 +423,15 @@ def probes(rep, r, n):
                     continue
                 if not (np.allclose(bgc[un], bg[un] + 16.0, rtol=0, atol=4 * scale_tol) and np.allclose(rmsc[un], rms[un], rtol=0, atol=4 * scale_tol)):
                     rep.violation(f'shift-equivariance:{tag}', 'adding 16 to the data did not add 16 to the background / left the RMS', rp)
+                    continue
+                bad_ext = None
+                for nm_, k_, a_, b_ in (('2^-30', 2.0 ** -30, bgt, rmst), ('2^20', 2.0 ** 20, bgl, rmsl)):
+                    if not (np.allclose(a_[un], k_ * bg[un], rtol=0, atol=4 * scale_tol * k_) and np.allclose(b_[un], k_ * rms[un], rtol=0, atol=4 * scale_tol * k_)):
+                        bad_ext = f'multiplying the data by {nm_} did not scale background and RMS by {nm_}'
+                if bad_ext is None and not (np.allclose(bgp[un], bg[un] + 2.0 ** 17, rtol=0, atol=1e-6) and np.allclose(rmsp[un], rms[un], rtol=0, atol=1e-6)):
+                    bad_ext = 'adding 2^17 to the data did not add 2^17 to the background / left the RMS'
+                if bad_ext:
+                    rep.violation(f'equivariance-extreme-scale:{tag}', bad_ext, rp)
                     continue
             # constant image reproduced exactly
             cval = r.choice([0.0, 7.25, -3.5, 1024.0])
